@@ -185,6 +185,22 @@ def run(case):
                     ln = None
             c = w.copy()
             import math
+            # next() straight on a freshly built window and on a fresh copy (no iter() first): positions 0, 1, 2, ...
+            for fresh in (SlidingWindow(**kw), w.copy()):
+                got = []
+                for _ in range(4):
+                    try:
+                        got.append(tb.us(next(fresh)))
+                    except StopIteration:
+                        got.append(None)
+                        break
+                want = []
+                for i_ in range(4):
+                    x_ = w[i_]
+                    want.append(None if x_ is None else tb.us(x_))
+                    if x_ is None:
+                        break
+                assert got == want, "next() on a fresh window gives %r, positions 0.. are %r" % (got, want)
             cp = [tb.u(c.duration), tb.u(c.step), tb.u(c.start), None if math.isinf(c.end) else tb.u(c.end)]
             closest = [[x, int(w.closest_frame(t(x)))] for x in ts]
             r2 = [[[i0, n], [tb.u(y, 2) for y in (lambda s_: (s_.start, s_.end))(w.range_to_segment(i0, n))]] for i0, n in r2s]
